@@ -77,6 +77,8 @@ fn c03_ws_server(case: &Case) {
     sanitize(&mut reqs);
     let expect_n = reqs.iter().filter(|r| model(r).ec.is_some()).count();
     let cap = pick(&[0usize, 0, 0, 1, 2, 16]);
+    let out_cap = pick(&[256usize, 256, 1, 2, 4]);
+    let stall_ms = if out_cap < 256 { pick(&[0u64, 5, 50, 400]) } else { pick(&[0u64, 0, 0, 50]) };
     if cap != 0 {
         // make saturation likely: more off-reader traffic, notifies included
         for r in reqs.iter_mut() {
@@ -86,7 +88,7 @@ fn c03_ws_server(case: &Case) {
             }
         }
     }
-    case.sample(json!({"middlewares": n_mw, "offreader_cap": cap, "requests": reqs.iter().map(|r| format!("{}{} v{} q{} b{} {}B", if r.notify {"notify "} else {""}, r.what, r.version, r.qfmt, r.bfmt, r.body.len())).collect::<Vec<_>>()}));
+    case.sample(json!({"middlewares": n_mw, "offreader_cap": cap, "outbound_capacity": out_cap, "client_reads_after_ms": stall_ms, "requests": reqs.iter().map(|r| format!("{}{} v{} q{} b{} {}B", if r.notify {"notify "} else {""}, r.what, r.version, r.qfmt, r.bfmt, r.body.len())).collect::<Vec<_>>()}));
     let case = case.clone();
     aio::run_or_error(&case.clone(), 3_600, async move {
         let counters = Arc::new(Counters::default());
@@ -96,7 +98,7 @@ fn c03_ws_server(case: &Case) {
         // mostly unlimited off-reader slots (saturation replies are C16's subject); with a
         // finite cap an off-reader request may legitimately be answered ResourceExhausted
         // instead, and the lighter oracle below applies
-        let server = WebSocketServer::new(router).with_offreader_limit(cap).with_outbound_capacity(256);
+        let server = WebSocketServer::new(router).with_offreader_limit(cap).with_outbound_capacity(out_cap);
         let srv = tokio::spawn(async move {
             let _ = server.serve_listener(listener, "/repe").await;
         });
@@ -104,19 +106,44 @@ fn c03_ws_server(case: &Case) {
             case.harness_error("handshake failed");
             return;
         };
+        if stall_ms > 0 {
+            // a slow consumer: tiny receive window and nobody reading for a while, so the
+            // server's writer backs up and its bounded outbound queue fills
+            net::set_capacity(&ws.get_ref().conn(), Side::B, 256);
+        }
         let (mut sink, stream) = ws.split();
         let inbox = Arc::new(Inbox::default());
-        let collector = spawn_collector(stream, inbox.clone());
-        for r in &reqs {
-            if simkernel::choose(4) == 0 {
-                jitter().await;
-            }
-            if send_frame(&mut sink, &r.frame()).await.is_err() {
-                break;
-            }
+        let mut stream = Some(stream);
+        let mut collector = None;
+        if stall_ms == 0 {
+            collector = Some(spawn_collector(stream.take().unwrap(), inbox.clone()));
         }
+        // requests go out from their own task, so that a stalled reader on this side only
+        // back-pressures the sender instead of cutting the sequence short
+        let frames: Vec<Frame> = reqs.iter().map(|r| r.frame()).collect();
+        let sender = tokio::spawn(async move {
+            for f in &frames {
+                if simkernel::choose(4) == 0 {
+                    jitter().await;
+                }
+                if send_frame(&mut sink, f).await.is_err() {
+                    break;
+                }
+            }
+            sink
+        });
+        if stall_ms > 0 {
+            case.probe("fault.stall_reader");
+            sleep_ms(stall_ms).await;
+            collector = Some(spawn_collector(stream.take().unwrap(), inbox.clone()));
+        }
+        let Ok(Ok(mut sink)) = timeout(Duration::from_secs(120), sender).await else {
+            case.harness_error("request sender did not finish");
+            return;
+        };
+        let collector = collector.unwrap();
         let ib = inbox.clone();
-        wait_until(3_000, || ib.frames().len() >= expect_n || ib.ended()).await;
+        wait_until(10_000, || ib.frames().len() >= expect_n || ib.ended()).await;
         // responses that must NOT come, and notifies at the tail that must still be dispatched
         sleep_ms(50).await;
         let responses = inbox.frames();
